@@ -35,6 +35,7 @@ type histCfg struct {
 	mid                  []string // ops allowed at the first wager request: arrive addon-part rebuy-part leave-sitout leave-part none
 	finish               []string // settlement-finished policies available: all none first
 	newStack             int64
+	preset               bool     // the initial players are handed to CreateTable in the table setting instead of reserving them one by one
 	between2             bool     // a second operation may follow the first in the same gap between hands
 	advance              int64    // seconds the clock moves before every wager action
 	race                 *raceCfg // one operation issued concurrently with the response that ends hand 1 (racing settlement / continue)
@@ -385,14 +386,24 @@ func runHist(prefix []int, hc *histCfg, vcfg vrt.Config, mk func(h *hist) []Moni
 
 func runHist0(prefix []int, hc *histCfg, vcfg vrt.Config, mk func(h *hist) []Monitor, hout **hist) *vrt.Exec {
 	return runTable(prefix, vcfg, func(env *vrt.Env) (string, string, string) {
-		td, err := newTD(env, hc.tcfg)
+		tc := hc.tcfg
+		if hc.preset {
+			for _, s := range hc.init {
+				tc.Join = append(tc.Join, pt.JoinPlayer{PlayerID: s.id, RedeemChips: s.chips, Seat: s.seat})
+			}
+		}
+		td, err := newTD(env, tc)
 		if err != nil {
 			return "", "harness-create-table", err.Error()
 		}
 		h := &hist{cfg: hc, td: td, topups: map[int]map[string]int64{}, midDone: map[int]bool{}, midOp: map[int]string{}}
 		*hout = h
 		for _, s := range hc.init {
-			if err := td.reserve(s.id, s.seat, s.chips); err != nil {
+			if hc.preset {
+				if td.player(s.id) == nil {
+					return "", "harness-seat", "preset player " + s.id + " is not on the table after CreateTable"
+				}
+			} else if err := td.reserve(s.id, s.seat, s.chips); err != nil {
 				return "", "harness-seat", err.Error()
 			}
 			h.in += s.chips
